@@ -5,7 +5,6 @@ import (
 	"os"
 	"path/filepath"
 	"runtime"
-	"strings"
 )
 
 // AvailableDiskSize 获取磁盘剩余空间大小
@@ -35,10 +34,13 @@ func CopyDir(src, dest string, exclude []string) error {
 
 	// 递归遍历源目录中的所有文件和子目录
 	return filepath.Walk(src, func(path string, info fs.FileInfo, err error) error {
-		// 从源路径中去除源目录前缀获取相对路径
-		fileName := strings.Replace(path, src, "", 1)
-		if fileName == "" {
-			// 如果相对路径为空, 即当前路径就是源目录本身, 则跳过
+		// 获取相对于源目录的路径; 不能按字符串去除前缀: 源目录为 "." 时会删去文件名中的第一个 "."
+		fileName, relErr := filepath.Rel(src, path)
+		if relErr != nil {
+			return relErr
+		}
+		if fileName == "." {
+			// 当前路径就是源目录本身, 跳过
 			return nil
 		}
 
